@@ -27,9 +27,12 @@ int kind_from_name(const std::string &s);
 struct Blob { // deterministic byte string: bytes are a pure function of (len, seed)
 	uint32_t len = 0;
 	uint64_t seed = 0;
+	uint32_t tweak = 0; // 0: none, 1: last byte inverted, 2: first byte inverted (keys that differ in one byte only)
+	Blob() {}
+	Blob(uint32_t l, uint64_t s, uint32_t t = 0) : len(l), seed(s), tweak(t) {}
 	std::vector<uint8_t> bytes() const;
-	bool operator<(const Blob &o) const { return len != o.len ? len < o.len : seed < o.seed; }
-	bool operator==(const Blob &o) const { return len == o.len && seed == o.seed; }
+	bool operator<(const Blob &o) const { return len != o.len ? len < o.len : seed != o.seed ? seed < o.seed : tweak < o.tweak; }
+	bool operator==(const Blob &o) const { return len == o.len && seed == o.seed && tweak == o.tweak; }
 };
 
 struct Op {
